@@ -71,6 +71,13 @@ def thin_top(P, Q):
     return A.bounds().area < 1e-3 and B.bounds().area < 1e-3
 
 
+def thin_boxes(P, Q):
+    """K14 classifier: both operands' top-level bounding boxes are thin — a side at most 1e-2 long — without having area < 1e-3 (K3)"""
+    A, B = oc.mkseg(P), oc.mkseg(Q)
+    a, b = A.bounds(), B.bounds()
+    return min(a.right - a.left, a.top - a.bottom) <= 1e-2 and min(b.right - b.left, b.top - b.bottom) <= 1e-2
+
+
 def check_pair(P, Q):
     ref = classify_pair(P, Q)
     if isinstance(ref, str):
@@ -93,6 +100,8 @@ def check_pair(P, Q):
             if d > tol:
                 if thin_top(P, Q):
                     return "K3"
+                if thin_boxes(P, Q):
+                    return "K14"
                 return "%s: phantom: the points at t1=%r and t2=%r are %r apart (> 0.2%% of the extent %r)" % (which, i.t1, i.t2, d, E)
             if not (0 < i.t1 <= 1 and 0 < i.t2 <= 1):
                 return "%s: parameters (%r, %r) outside (0,1]" % (which, i.t1, i.t2)
@@ -202,6 +211,10 @@ def rand_pair(rng, i):
         # K3 family: a horizontal and a vertical straight curve that cross
         P = straight_axis_curve(rng, True)
         Q = straight_axis_curve(rng, False)
+        if rng.random() < 0.35:
+            # K14 family: the same, bent by a thousandth of a unit — genuinely curved, boxes thin but not of area < 1e-3
+            bend = lambda C, k: [C[0]] + [((x, y + 1e-3) if k == 1 else (x + 1e-3, y)) for x, y in C[1:-1]] + [C[-1]]
+            P, Q = bend(P, 1), bend(Q, 0)
         x = 0.25 * P[0][0] + 0.75 * P[-1][0]
         y = P[0][1]
         Q = [(x, v - (0.4 * Q[0][1] + 0.6 * Q[-1][1]) + y) for _, v in Q]
@@ -530,7 +543,7 @@ def search(ctx, budget):
             nontriv += 1
         if msg:
             viol.append({"what": msg, "kind": kind, "input": inp})
-            if len([v for v in viol if v["what"] not in ("K3", "K11", "K12")]) >= 5:
+            if len([v for v in viol if v["what"] not in ("K3", "K11", "K12", "K14")]) >= 5:
                 break
         if len(samples) < 3:
             samples.append(inp)
@@ -538,7 +551,7 @@ def search(ctx, budget):
 
 
 def classify(v, entry):
-    return entry["id"] in ("K3", "K11", "K12") and v.get("what") == entry["id"]
+    return entry["id"] in ("K3", "K11", "K12", "K14") and v.get("what") == entry["id"]
 
 
 def replay(v):
